@@ -56,6 +56,9 @@ func (t *tree) commitWithHooks(
 		return nil, hash.Hash{}, ErrClosed
 	}
 
+	// Nothing that an earlier operation has dereferenced is held anymore.
+	t.cache.beginOperation()
+
 	var opts commitOptions
 	for _, o := range options {
 		o(&opts)
@@ -162,6 +165,13 @@ func doCommit(
 	if ptr.Clean {
 		if err := batch.VisitCleanNode(ptr, parent); err != nil {
 			return hash.Hash{}, err
+		}
+		if ptr.Node != nil && ptr.LRU == nil {
+			// A clean node that has been kept out of the eviction queue because it was needed
+			// by a dirty node. Make it eligible for eviction again.
+			batch.OnCommit(func() {
+				cache.commitNode(ptr)
+			})
 		}
 		return ptr.Hash, nil
 	}
